@@ -162,14 +162,14 @@ static void one_case(int iface, int transport, int version, int doc_alg, uint64_
 	int res = KSI_UNKNOWN_ERROR, expect_ok;
 	unsigned seed = 42;
 	char what[64];
-	snprintf(what, sizeof what, "%s-%s", iface == 0 ? "signAggregated" : iface == 1 ? "createSignature" : "async", transport == 0 ? "tcp" : "http");
+	snprintf(what, sizeof what, "%s-%s", iface == 0 ? "signAggregated" : iface == 1 ? "createSignature" : iface == 3 ? "signWithPolicyCtx" : "async", transport == 0 ? "tcp" : "http");
 	srv_install(handler, NULL);
 	memset(&S, 0, sizeof S);
 	S.behaviour = B_HONEST; S.sub = sub; S.version = version; S.shape = shape; S.tail = tail;
 	set_version(ctx, version);
 	expect_ok = (behaviour == B_HONEST) && honest_possible(level);
 	if (behaviour == B_OTHER_LEVEL && level == 0) expect_ok = 1;          /* deviation not expressible at level 0: reply is honest */
-	if (iface < 2) {
+	if (iface != 2) {
 		if (KSI_CTX_setAggregator(ctx, uri, LOGIN, KEY) != KSI_OK) vf_harness_error("setAggregator");
 		if (behaviour == B_STALE_ID) {
 			/* first an honest exchange, whose id the server then reuses */
@@ -185,6 +185,13 @@ static void one_case(int iface, int transport, int version, int doc_alg, uint64_
 		hl = ref_fake_imprint(doc_alg, seed, h);
 		KSI_DataHash_fromImprint(ctx, h, hl, &hsh);
 		if (iface == 0) res = KSI_Signature_signAggregated(ctx, hsh, level, &sig);
+		else if (iface == 3) {
+			/* the variant that takes a policy and a caller-supplied verification context */
+			KSI_VerificationContext vc;
+			KSI_VerificationContext_init(&vc, ctx);
+			res = KSI_Signature_signAggregatedWithPolicy(ctx, hsh, level, KSI_VERIFICATION_POLICY_INTERNAL, &vc, &sig);
+			KSI_VerificationContext_clean(&vc);
+		}
 		else res = KSI_createSignature(ctx, hsh, &sig);
 		vf_count("impl_calls", 1);
 	} else {
@@ -256,7 +263,7 @@ static void part_main(void) {
 	static const int ALGS[] = {RH_SHA256, RH_SHA512, RH_SHA384, RH_RIPEMD160};
 	static const uint64_t LEVELS[] = {0, 1, 2, 254, 255};
 	int iface, tr, ver, ai, li, shape, tail, b, sub;
-	for (iface = 0; iface < 3; iface++) for (tr = 0; tr < 2; tr++) for (ver = 2; ver >= 1; ver--)
+	for (iface = 0; iface < 4; iface++) for (tr = 0; tr < 2; tr++) for (ver = 2; ver >= 1; ver--)
 	for (ai = 0; ai < 4; ai++) for (li = 0; li < 5; li++) for (shape = 0; shape < 6; shape++) for (tail = 0; tail < 3; tail++)
 	for (b = 0; b < B_NBEH; b++) {
 		int nsub = b == B_STATUS || b == B_ERROR_PDU ? NSTATUS : b == B_INCONSISTENT ? NINCONS : 1;
